@@ -20,6 +20,7 @@ structure ClusterSpec where
   pad : Array Rat     -- xMin xMax yMin yMax
   mar : Array Rat
   nodes : List Nat
+  rect : Option Nat := none      -- cluster built from this node's rectangle
   deriving Inhabited
 
 def parseRects (c : Case) (key : String) : Option (Array Rect) :=
@@ -27,13 +28,16 @@ def parseRects (c : Case) (key : String) : Option (Array Rect) :=
     let v ← nums? (l.extract 1 5)
     pure { minX := v[0]!, maxX := v[1]!, minY := v[2]!, maxY := v[3]! }
 
+def rectOf (c : Case) (cid : Nat) : Option Nat :=
+  ((c.get "crect").toList.find? fun l => nat! (l[0]?.getD "") == cid).map fun l => nat! (l[1]?.getD "0")
+
 def parseClusters (c : Case) : Option (Array ClusterSpec) :=
-  (c.get "cluster").mapM fun l => do
+  ((c.get "cluster").mapIdx fun i l => (i, l)).mapM fun (cid, l) => do
     let pad ← nums? (l.extract 2 6)
     let mar ← nums? (l.extract 6 10)
     let k := nat! (l[10]?.getD "0")
     pure { parent := int! (l[1]?.getD "-1"), pad := pad, mar := mar,
-           nodes := (List.range k).map fun j => nat! (l[11 + j]?.getD "0") }
+           nodes := (List.range k).map fun j => nat! (l[11 + j]?.getD "0"), rect := rectOf c cid }
 
 def parseExempt (c : Case) : List (List Nat) :=
   (c.get "exempt").toList.map fun l =>
@@ -48,7 +52,8 @@ def childrenOf (cs : Array ClusterSpec) (p : Int) : List Nat :=
 /-- all nodes of a cluster including those of nested clusters (fuel = number of clusters) -/
 def membersOf (cs : Array ClusterSpec) : Nat → Nat → List Nat
   | 0, c => (cs[c]!).nodes
-  | fuel + 1, c => (cs[c]!).nodes ++ (childrenOf cs (c : Int)).flatMap (membersOf cs fuel)
+  | fuel + 1, c => (cs[c]!).nodes ++ (childrenOf cs (c : Int)).flatMap (fun d => ownRect cs d ++ membersOf cs fuel d)
+where ownRect (cs : Array ClusterSpec) (d : Nat) : List Nat := match (cs[d]!).rect with | some i => [i] | none => []
 
 def padOf (k : ClusterSpec) (d : Dim) : Rat × Rat :=
   match d with | .x => (k.pad[0]!, k.pad[1]!) | .y => (k.pad[2]!, k.pad[3]!)
@@ -101,6 +106,22 @@ def checkGen (c : Case) : CaseResult := Id.run do
         if !(nat! l[2]! == m.left && nat! l[3]! == m.right && num? l[4]! == some m.gap && (l[5]! == "1") == m.eq) then
           return { verdict := .diverge s!"containment cluster {cid} dim {dn}: impl {l} model ({m.left},{m.right},{ratToString m.gap})" }
       nclu := nclu + model.length
+  -- generateFixedRectangleConstraints of rectangle-based clusters
+  let mut nfr := 0
+  for cid in [0:cs.size] do
+    let impl := ((c.get "frcon").filter fun l => l[0]! == toString cid).toList
+    let model : List (Nat × Sep) := match (cs[cid]!).rect with
+      | none => []
+      | some ri =>
+        let r := rects.getD ri default
+        (fixedRectSeps (cvar[cid]!) ri (r.width / 2)).map (fun s => (0, s)) ++
+        (fixedRectSeps (cvar[cid]!) ri (r.height / 2)).map (fun s => (1, s))
+    if impl.length != model.length then
+      return { verdict := .diverge s!"fixed-rectangle constraints cluster {cid}: impl {impl.length}, model {model.length}" }
+    for (l, m) in impl.zip model do
+      if !(nat! l[1]! == m.1 && nat! l[2]! == m.2.left && nat! l[3]! == m.2.right && num? l[4]! == some m.2.gap && (l[5]! == "1") == m.2.eq) then
+        return { verdict := .diverge s!"fixed-rectangle constraints cluster {cid}: impl {l} model dim {m.1} ({m.2.left},{m.2.right},{ratToString m.2.gap},{m.2.eq})" }
+    nfr := nfr + model.length
   -- makeFeasible's alternatives for the most overlapping pair (flat cases)
   let mut nalt := 0
   if (c.get1 "noaltdone").isSome then
@@ -125,7 +146,7 @@ def checkGen (c : Case) : CaseResult := Id.run do
       if !(offending rects exempt 0).isEmpty then
         return { verdict := .diverge s!"no alternatives offered although pairs {offending rects exempt 0} overlap" }
   return { verdict := .ok, nontrivial := ncons > 0,
-           stats := [("gen.alternatives", nalt), ("gen.nonoverlap.constraints", ncons), ("gen.containment.constraints", nclu), ("gen.pairs", st.pairs.length)] }
+           stats := [("gen.alternatives", nalt), ("gen.fixedrect.constraints", nfr), ("gen.nonoverlap.constraints", ncons), ("gen.containment.constraints", nclu), ("gen.pairs", st.pairs.length)] }
 
 def allFinite (c : Case) (key : String) : Bool :=
   (c.get key).all fun l => (l.extract 1 5).all fun s => match dbl? s with | some d => d.isFinite | none => false
@@ -147,13 +168,28 @@ def checkLayout (c : Case) : CaseResult := Id.run do
   if exc != "none" then
     return { verdict := .specfail s!"exception[fdmfrun]: {exc} escaped makeFeasible()+run()", stats := stats }
   let nrep := (c.get "unsat").size
-  let exempt := exemptFn (parseExempt c)
+  let fuel := cs.size
+  let memD (cid : Nat) : List Nat := membersOf cs fuel cid        -- descendants (without the own container rectangle)
+  -- a container rectangle and the nodes inside its cluster overlap by design
+  let containerPair (i j : Nat) : Bool :=
+    (List.range cs.size).any fun cid => match (cs[cid]!).rect with
+      | some ri => (ri == i && (memD cid).contains j) || (ri == j && (memD cid).contains i)
+      | none => false
+  let userExempt := exemptFn (parseExempt c)
+  let exempt : Nat → Nat → Bool := fun i j => userExempt i j || containerPair i j
   let initialOverlaps := (offending rects exempt tolC08).length
   stats := bumpStats stats "initial.overlapping_pairs" initialOverlaps
   let bad := offending outs exempt tolC08
   -- clusters
-  let fuel := cs.size
-  let mem (cid : Nat) : List Nat := membersOf cs fuel cid
+  let mem (cid : Nat) : List Nat := (match (cs[cid]!).rect with | some ri => [ri] | none => []) ++ memD cid
+  let mut outsideBad : List (Nat × Nat) := []
+  for a in [0:cs.size] do
+    match (cs[a]!).rect with
+    | some ri =>
+      if !(membersWithin tolC08 outs ri (memD a)) then
+        for i in memD a do
+          if !(withinTol tolC08 (outs.getD i default) (outs.getD ri default)) then outsideBad := (a, i) :: outsideBad
+    | none => pure ()
   let mut sibBad : List (Nat × Nat) := []
   let mut foreignBad : List (Nat × Nat) := []
   for a in [0:cs.size] do
@@ -167,13 +203,19 @@ def checkLayout (c : Case) : CaseResult := Id.run do
       if (cs[a]!).parent == (cs[b]!).parent && !(boxesDisjoint tolC08 outs (mem a) (mem b)) then sibBad := (b, a) :: sibBad
   if nrep > 0 then
     stats := bumpStats stats "excused.reported_unsat" 1
-    if !bad.isEmpty || !sibBad.isEmpty || !foreignBad.isEmpty then stats := bumpStats stats "excused.with_overlap" 1
+    if !bad.isEmpty || !sibBad.isEmpty || !foreignBad.isEmpty || !outsideBad.isEmpty then stats := bumpStats stats "excused.with_overlap" 1
     return { verdict := .ok, nontrivial := false, stats := stats }
   match bad with
   | p :: _ =>
     let a := outs.getD p.1 default; let b := outs.getD p.2 default
     return { verdict := .specfail s!"overlap nodes {p.1},{p.2}: {ratToString (Rect.ovX a b)} in x and {ratToString (Rect.ovY a b)} in y (> 1e-3 in both), nothing reported unsatisfiable; {bad.length} offending pairs; clusters={cs.size}",
              stats := stats }
+  | [] => pure ()
+  match outsideBad with
+  | p :: _ =>
+    let ri := ((cs[p.1]!).rect).getD 0
+    let m := outs.getD p.2 default; let b := outs.getD ri default
+    return { verdict := .specfail s!"member-outside-container: node {p.2} of rectangle-based cluster {p.1} leaves container rectangle {ri} by more than 1e-3 (member x [{ratToString m.minX},{ratToString m.maxX}] y [{ratToString m.minY},{ratToString m.maxY}]; container x [{ratToString b.minX},{ratToString b.maxX}] y [{ratToString b.minY},{ratToString b.maxY}]), nothing reported unsatisfiable", stats := stats }
   | [] => pure ()
   match sibBad with
   | p :: _ => return { verdict := .specfail s!"sibling-clusters {p.1},{p.2}: member bounding boxes overlap by more than 1e-3 in both dimensions, nothing reported unsatisfiable", stats := stats }
